@@ -18,7 +18,7 @@
 //!         drain | stop | q                        DrainRequests | factory.stop() | queue depth/active/capacity
 //!         sd <disc> | sw <n>                      UpdateSettings(discard_settings | worker_count)
 //! a line starting with `hash ` asks for hash_with_max values:  hash <n> <k> <k> ...
-//! stdout: one Coq-syntax term per line: list (per op) of sorted event lists.
+//! stdout: one Coq-syntax term per line: list (per op) of event lists (chronological inside an op).
 use std::collections::{BTreeMap, HashMap, HashSet};
 use std::sync::{Arc, Mutex};
 use std::time::Duration;
@@ -449,8 +449,8 @@ where
             }
         }
         pending_ports = still;
-        let mut evs: Vec<String> = std::mem::take(&mut sh.lock().unwrap().events);
-        evs.sort();
+        // chronological inside the op; the check sorts before comparing views
+        let evs: Vec<String> = std::mem::take(&mut sh.lock().unwrap().events);
         out.push(evs);
     }
     sh.lock().unwrap().closed = true;
